@@ -125,18 +125,18 @@ type commentsCase struct {
 }
 
 type commentsResult struct {
-	Panic    string  `json:"panic,omitempty"`
-	LoadErr  string  `json:"load_err"`
-	ParseErr string  `json:"parse_err"`
-	Steps    []stepJ `json:"steps"`
-	Out      []byte  `json:"out"`
-	OutErr   string  `json:"out_err"`
-	In       ownedJ  `json:"in"`     // of the input as given
-	InFmt    *ownedJ `json:"in_fmt"` // of the gofmt-ed input (go/printer re-indents block comments and separates directives)
-	OutOwned *ownedJ `json:"out_owned,omitempty"`
-	Lines    []int   `json:"lines"` // offsets of line starts of the input (token.File view)
-	APIErr     string `json:"api_err"`
-	APIDiffers bool   `json:"api_differs"` // File.Apply returned other bytes than the step-by-step run
+	Panic      string  `json:"panic,omitempty"`
+	LoadErr    string  `json:"load_err"`
+	ParseErr   string  `json:"parse_err"`
+	Steps      []stepJ `json:"steps"`
+	Out        []byte  `json:"out"`
+	OutErr     string  `json:"out_err"`
+	In         ownedJ  `json:"in"`     // of the input as given
+	InFmt      *ownedJ `json:"in_fmt"` // of the gofmt-ed input (go/printer re-indents block comments and separates directives)
+	OutOwned   *ownedJ `json:"out_owned,omitempty"`
+	Lines      []int   `json:"lines"` // offsets of line starts of the input (token.File view)
+	APIErr     string  `json:"api_err"`
+	APIDiffers bool    `json:"api_differs"` // File.Apply returned other bytes than the step-by-step run
 }
 
 func runCommentsCase(c commentsCase) (res commentsResult) {
